@@ -8,7 +8,7 @@
      rank values failed r      number of successful s with [precedes values s r]  = ascending rank of r
      selected values failed first last r = succeeded r && first <= rank r <= last *)
 From Coq Require Import String QArith ZArith Bool Arith List.
-From Ropt Require Import Base.Num Base.ListX Model.Filters Proofs.SortX Proofs.Filters.
+From Ropt Require Import Base.Num Base.ListX Model.Filters Proofs.SortX Proofs.Filters Proofs.FiltersTies Proofs.FiltersSeq Proofs.FiltersAccept.
 Import ListNotations.
 
 (* the weight of r is its configured weight if r is successful with rank in [first, last], the literal 0 otherwise;
@@ -105,6 +105,162 @@ Theorem C05_rows_constraints : forall cfg filters ofm fm objs cns ow cw,
     end.
 Proof. exact filtered_rows_constraints. Qed.
 
+(* np.argsort fixes nothing about the order of tied values.  For EVERY ranking idx it may return (select_along is the
+   code of _sort_and_select run along idx; sort_and_select is select_along along the model's ranking): exactly
+   min(last+1, #successes) - first realizations are selected; a successful realization whose whole tie group lies
+   inside the rank window carries its configured weight, one whose tie group lies outside carries the literal 0,
+   any other carries one of the two; failed realizations carry the literal 0 (grp_lo r / grp_ge r = number of
+   successful realizations with a smaller / smaller-or-equal value: the ranks r can take are grp_lo r .. grp_ge r - 1) *)
+Theorem C05_tie_robust : forall values cfgw failed idx first last,
+  valid_order values failed idx -> length cfgw = length failed ->
+  let w := select_along idx cfgw first last in
+  length (window first last idx) = (Nat.min (last + 1) (count_ok failed) - first)%nat /\
+  forall r,
+    (succeeded failed r = false -> nth r w 0%Q = 0%Q) /\
+    (succeeded failed r = true -> (first <= grp_lo values failed r)%nat -> (grp_ge values failed r <= last + 1)%nat ->
+       nth r w 0%Q = nth r cfgw 0%Q) /\
+    (succeeded failed r = true -> (grp_ge values failed r <= first)%nat \/ (last < grp_lo values failed r)%nat ->
+       nth r w 0%Q = 0%Q) /\
+    (nth r w 0%Q = nth r cfgw 0%Q \/ nth r w 0%Q = 0%Q).
+Proof. exact select_along_tie_robust. Qed.
+
+Theorem C05_model_is_along : forall values cfgw failed first last,
+  sort_and_select values cfgw failed first last = select_along (ranked failed values) cfgw first last.
+Proof. exact sort_and_select_along. Qed.
+
+(* through the evaluator: values are produced only if EVERY filter in use selected a realization with positive weight;
+   otherwise the evaluation ends with TOO_FEW_REALIZATIONS (no other exit code can come from a filter), caused by a
+   filter in use whose window holds no positive weight -- a window emptied by failures never produces a value and
+   never puts weight on a failed realization (C05_window) *)
+Theorem C05_emptied_window_is_too_few : forall cfg filters ofm cfm rmin objs0 cns0,
+  let objs := fst (propagate_nan objs0 cns0) in
+  let cns := snd (propagate_nan objs0 cns0) in
+  match evaluate cfg filters ofm cfm rmin objs0 cns0 with
+  | Ok _ => forall k m, nth_error filters k = Some m -> in_use ofm cfm (Z.of_nat k) = true ->
+                        exists w, get_weights cfg m objs cns = Ok w
+  | Abort c => c = too_few /\
+               exists k m, nth_error filters k = Some m /\ in_use ofm cfm (Z.of_nat k) = true /\
+                           get_weights cfg m objs cns = Abort too_few
+  | Raise _ => True
+  end.
+Proof. exact evaluate_in_use. Qed.
+
+(* the value reported for objective j is the mean estimator applied with the vector of the filter mapped to j (the
+   configured weights when none is mapped), failed realizations zeroed: weights applied to exactly that function *)
+Theorem C05_reported_value : forall cfg filters fm cfm rmin objs0 cns0 e j,
+  evaluate cfg filters (Some fm) cfm rmin objs0 cns0 = Ok e ->
+  length fm = length (c_ow cfg) -> (j < length fm)%nat ->
+  let objs := fst (propagate_nan objs0 cns0) in
+  let cns := snd (propagate_nan objs0 cns0) in
+  let failed := col0_failed objs in
+  (rmin <= count_ok failed)%nat -> (0 < count_ok failed)%nat ->
+  exists fo co w,
+    e_functions e = Some (fo, co) /\
+    nth j fo None = mean_value w failed (column j objs) /\
+    match znth (nth j fm (-1)%Z) filters with
+    | Some m => get_weights cfg m objs cns = Ok w
+    | None => w = c_rw cfg
+    end.
+Proof. exact evaluate_objective_value. Qed.
+
+(* ANY sequence of calculate() calls on one evaluator object (function-only, gradient-only -- re-using the cached
+   function result when the point is the cached one --, and combined requests, in any order, continuing after aborted
+   calls): every function result and every gradient result of answer i is that of a fresh evaluation of the point of
+   request i, and an aborted call is one whose fresh evaluation aborts.  The cache never shows. *)
+Theorem C05_any_request_order : forall env reqs i rq,
+  nth_error reqs i = Some rq ->
+  exists a, nth_error (run_direct env None reqs) i = Some a /\
+    match a with
+    | Ok rs => (forall e, In (RFun e) rs -> fresh_function env (req_point rq) = Ok e) /\
+               (forall g, In (RGrad g) rs -> fresh_gradient env (req_point rq) = Ok g)
+    | Abort c => fresh_function env (req_point rq) = Abort c
+    | Raise _ => True
+    end.
+Proof. intros env reqs i rq H. exact (run_direct_spec env reqs None I i rq H). Qed.
+
+(* weights in force for gradients: the matrices reported with the gradient results of a point are those of the function
+   evaluation of that point (C05_rows_*: each row is the mapped filter's vector for the function values), and the
+   failure flags add exactly the realizations with too few successful perturbations *)
+Theorem C05_gradient_weights_in_force : forall env k g,
+  fresh_gradient env k = Ok g ->
+  exists e, fresh_function env k = Ok e /\ g_ow g = e_ow e /\ g_cw g = e_cw e /\
+            g_failed g = grad_failed (s_pmin env) (e_failed e)
+                           (match nth_error (s_points env) k with Some pt => pt_pfail pt | None => [] end).
+Proof. exact fresh_gradient_weights. Qed.
+
+Theorem C05_gradient_value_in_force : forall env k g fm j,
+  fresh_gradient env k = Ok g -> s_ofm env = Some fm ->
+  length fm = length (c_ow (s_cfg env)) -> (j < length fm)%nat ->
+  (s_rmin env <= count_ok (g_failed g))%nat ->
+  exists pt e go gc w,
+    nth_error (s_points env) k = Some pt /\ fresh_function env k = Ok e /\
+    g_failed g = grad_failed (s_pmin env) (e_failed e) (pt_pfail pt) /\
+    g_gradients g = Some (go, gc) /\
+    nth j go None = mean_value w (g_failed g) (column j (somes (pt_oslope pt))) /\
+    match znth (nth j fm (-1)%Z) (s_filters env) with
+    | Some m => get_weights (s_cfg env) m (fst (propagate_nan (pt_objs pt) (pt_cons pt)))
+                            (snd (propagate_nan (pt_objs pt) (pt_cons pt))) = Ok w
+    | None => w = c_rw (s_cfg env)
+    end.
+Proof. exact gradient_objective_value. Qed.
+
+(* an optimizer step whose optimizer issues the requests reqs: the exit code is OPTIMIZER_STEP_FINISHED exactly when
+   every request delivered results that all carry values; otherwise it is TOO_FEW_REALIZATIONS, caused either by the
+   last delivered tuple (a result without values) or by the next request, whose evaluation was ended by a filter that
+   found no positive weight (nothing is delivered for it and no later request is evaluated) *)
+Theorem C05_step_exit_code : forall env allow_nan reqs d code,
+  run_step env allow_nan None reqs = (d, Ok code) ->
+  (code = step_finished /\ length d = length reqs /\
+   Forall (fun rs => existsb (result_stops env allow_nan) rs = false) d) \/
+  (code = too_few /\
+   ((exists d' rs, d = d' ++ [rs] /\ existsb (result_stops env allow_nan) rs = true /\
+                   Forall (fun rs => existsb (result_stops env allow_nan) rs = false) d') \/
+    (exists rq, nth_error reqs (length d) = Some rq /\ fresh_function env (req_point rq) = Abort too_few /\
+                Forall (fun rs => existsb (result_stops env allow_nan) rs = false) d))).
+Proof. intros env an reqs d code H. exact (run_step_exit env an reqs None d code I H). Qed.
+
+Theorem C05_step_first_evaluation_aborts : forall env allow_nan rq rest c,
+  fresh_function env (req_point rq) = Abort c -> run_step env allow_nan None (rq :: rest) = ([], Ok c).
+Proof. exact run_step_first_abort. Qed.
+
+Theorem C05_evaluator_step_exit_code : forall env k d code, run_evalstep env k = (d, Ok code) ->
+  match fresh_function env k with
+  | Ok e => d = [[RFun e]] /\ code = (if is_none (e_functions e) then too_few else evaluation_finished)
+  | Abort c => d = [] /\ code = c /\ c = too_few
+  | Raise _ => False
+  end.
+Proof. exact run_evalstep_exit. Qed.
+
+(* the predicate the correspondence checker evaluates on the implementation's vectors (window_ok: for every tie group
+   the number of selected members lies between the quota of ranks the group has inside the window, allowing for
+   members whose configured weight is 0) ACCEPTS the vector of every ranking np.argsort may return -- the check cannot
+   alarm because of the order of ties -- and so does the acceptance of an abort (window_may_abort) *)
+Theorem C05_checker_accepts_every_tie_order : forall values cfgw failed idx first last,
+  valid_order values failed idx -> length cfgw = length failed ->
+  window_ok values cfgw failed first last (select_along idx cfgw first last) = true.
+Proof. exact window_ok_complete. Qed.
+
+Theorem C05_checker_accepts_abort_of_every_tie_order : forall values cfgw failed idx first last,
+  valid_order values failed idx -> length cfgw = length failed ->
+  any_positive (select_along idx cfgw first last) = false ->
+  window_may_abort values cfgw failed first last = true.
+Proof. exact window_may_abort_complete. Qed.
+
+(* ... and it accepts ONLY vectors that are right on every tie group not cut by a window edge: failed realizations 0;
+   successful ones their configured weight or 0; tie group inside the window: the configured weight; outside: 0.  With
+   pairwise distinct values that is every realization, i.e. C05_window. *)
+Theorem C05_checker_sound : forall values cfgw failed first last w,
+  window_ok values cfgw failed first last w = true ->
+  length w = length failed /\
+  forall r, (r < length failed)%nat ->
+    (succeeded failed r = false -> (nth r w 0 == 0)%Q) /\
+    (succeeded failed r = true -> ((nth r w 0 == nth r cfgw 0)%Q \/ (nth r w 0 == 0)%Q)) /\
+    (succeeded failed r = true -> (first <= grp_lo values failed r)%nat -> (grp_ge values failed r <= last + 1)%nat ->
+       (nth r w 0 == nth r cfgw 0)%Q) /\
+    (succeeded failed r = true -> (grp_ge values failed r <= first)%nat \/ (last < grp_lo values failed r)%nat ->
+       (nth r w 0 == 0)%Q).
+Proof. exact window_ok_sound. Qed.
+
 (* non-vacuity: 4 realizations, the second failed, window [0,1] over the 3 successes; realization 2 (value 2, rank 0)
    and realization 0 (value 3, rank 1) are selected, realization 2 has configured weight 0 *)
 Example C05_example :
@@ -119,6 +275,21 @@ Example C05_example :
               (map (fun v => [Some v]) [Q_ 3 1; Q_ 1 1; Q_ 2 1; Q_ 5 1]) None = Abort 1%Z.
 Proof. vm_compute. repeat split; reflexivity. Qed.
 
+(* non-vacuity of the step statements: 3 realizations, a sort-objective filter with window [2,2].  At point 0 all three
+   succeed (the step goes on); at point 1 realization 1 fails, the window is emptied, the step ends with
+   TOO_FEW_REALIZATIONS (= 1) after delivering the results of the first request only; the third request is not evaluated *)
+Example C05_example_step :
+  let cfg := {| c_rw := [Q_ 1 3; Q_ 1 3; Q_ 1 3]; c_ow := [Q_ 1 1]; c_lower := []; c_upper := [] |} in
+  let mk o := {| pt_objs := o; pt_cons := None; pt_oslope := [[Q_ 2 1]; [Q_ 7 1]; [Q_ 5 1]]; pt_cslope := [];
+                 pt_pfail := [[false]; [false]; [false]] |} in
+  let env := {| s_cfg := cfg; s_filters := [SortObjective [0%nat] 2 2]; s_ofm := Some [0%Z]; s_cfm := None;
+                s_rmin := 1; s_pmin := 1;
+                s_points := [mk [[Some (Q_ 3 1)]; [Some (Q_ 2 1)]; [Some (Q_ 1 1)]]; mk [[Some (Q_ 3 1)]; [None]; [Some (Q_ 1 1)]]] |} in
+  exists e, run_step env false None [ReqF 0; ReqF 1; ReqF 0] = ([[RFun e]], Ok 1%Z) /\
+            e_ow e = Some [[Q_ 1 3; 0; 0]]%Q /\ fresh_function env 1 = Abort too_few /\ too_few = 1%Z /\
+            run_step env false None [ReqF 0; ReqG 0] = ([[RFun e]; [RGrad (gradient_result env e (mk [[Some (Q_ 3 1)]; [Some (Q_ 2 1)]; [Some (Q_ 1 1)]]))]], Ok step_finished).
+Proof. vm_compute. eexists. repeat split; reflexivity. Qed.
+
 Print Assumptions C05_window.
 Print Assumptions C05_ranking.
 Print Assumptions C05_empty_is_too_few_objective.
@@ -128,3 +299,16 @@ Print Assumptions C05_range_rejected_constraint.
 Print Assumptions C05_rejected_before_evaluation.
 Print Assumptions C05_rows_objectives.
 Print Assumptions C05_rows_constraints.
+Print Assumptions C05_tie_robust.
+Print Assumptions C05_model_is_along.
+Print Assumptions C05_emptied_window_is_too_few.
+Print Assumptions C05_reported_value.
+Print Assumptions C05_any_request_order.
+Print Assumptions C05_gradient_weights_in_force.
+Print Assumptions C05_gradient_value_in_force.
+Print Assumptions C05_step_exit_code.
+Print Assumptions C05_step_first_evaluation_aborts.
+Print Assumptions C05_evaluator_step_exit_code.
+Print Assumptions C05_checker_accepts_every_tie_order.
+Print Assumptions C05_checker_accepts_abort_of_every_tie_order.
+Print Assumptions C05_checker_sound.
